@@ -46,9 +46,6 @@ Fixpoint nodupb (l : list bytes) : bool :=
 (* implication written out as a conditional: lazy under vm_compute (a function call would
    evaluate both sides) *)
 Notation imp a b := (if a then b else true) (only parsing).
-(* "/a/b": rooted, components non-empty and neither "." nor ".." (never the root itself) *)
-Definition abs_cleanb (k : bytes) : bool :=
-  match k with c :: r => Ascii.eqb c c_sl && forallb plainb (psplit r) | [] => false end.
 Definition has_byte (n : N) (s : bytes) : bool := existsb (fun c => bn c =? n) s.
 Definition no_meta (s : bytes) : bool :=       (* no glob metacharacter other than '*' *)
   negb (has_byte 63 s) && negb (has_byte 91 s) && negb (has_byte 92 s).
@@ -134,7 +131,9 @@ Definition under_eq (d k : bytes) : bool := if feq d k then true else under d k.
 (* what a line of an add-files script names *)
 Definition targets (t : tree) (li : lineinfo) : list bytes :=
   if li_wild li then targets_wild t li else [li_name li].
-Definition omit_matches (nm : bytes) (w : bool) (k : bytes) : bool := if w then pmatch nm k else feq nm k.
+(* a pattern selects directory entries; the root of the archive ("./") is not one *)
+Definition omit_matches (nm : bytes) (w : bool) (k : bytes) : bool :=
+  if w then (if feq k root_path then false else pmatch nm k) else feq nm k.
 Definition omits (ops : list op) (k : bytes) : bool :=
   existsb (fun o => match o with OOmit nm w => omit_matches nm w k | _ => false end) ops.
 Definition adds (t : tree) (ops : list op) (k : bytes) : bool :=
